@@ -34,6 +34,7 @@ func runC08(c *core.Ctx) {
 	ruleDCTPlaneCharge(c)
 	ruleJPEGHeaderValidation(c)
 	ruleFuncTableSlots(c, "C08-R14")
+	ruleAllocAfterCharge(c, "C08-R15")
 	ruleAliasHygiene(c, [3]string{"C08-R11", "C08-R12", "C08-R13"}, "pdf/internal/filter/jbig2", "pdf/internal/filter/dct/jpeg")
 }
 
@@ -1273,6 +1274,91 @@ func ruleFuncTableSlots(c *core.Ctx, rule string) {
 							}
 						}
 						o.Fact("%s: %s has %d slots, %d empty", c.Prog.Pos(ix.Pos()), tv.Name(), length, len(empty))
+						// can the index have the value k at this read?  Per reaching definition of
+						// the index variable: a constant is compared directly; otherwise the facts
+						// that hold on every path from that definition to the read are used (a
+						// clamp "if i >= len(t) { i = 0 }" leaves the original value only on the
+						// edge where it is in range)
+						possible := func(k int64) (bool, bool, string) {
+							lit := &ast.BasicLit{Kind: token.INT, Value: itoa(int(k))}
+							type pathCase struct {
+								atoms []core.Atom
+							}
+							var cases []pathCase
+							idxExpr := ast.Unparen(ix.Index)
+							if conv, isConv := idxExpr.(*ast.CallExpr); isConv && len(conv.Args) == 1 {
+								if tvv, ok := info.Types[conv.Fun]; ok && tvv.IsType() {
+									idxExpr = ast.Unparen(conv.Args[0])
+								}
+							}
+							if id, isID := idxExpr.(*ast.Ident); isID {
+								if obj := info.ObjectOf(id); obj != nil {
+									defs := defVertices(g, obj)
+									for _, d := range defs {
+										var others []*core.V
+										for _, x := range defs {
+											if x != d {
+												others = append(others, x)
+											}
+										}
+										if d != v && !g.ReachFrom(d, false, core.AvoidVs(others...))[v] {
+											continue
+										}
+										// a constant definition
+										if as, isAs := d.AST.(*ast.AssignStmt); isAs && len(as.Lhs) == len(as.Rhs) {
+											isConstDef := false
+											for i, l := range as.Lhs {
+												if core.ObjOf(info, l) == obj {
+													if kk, isK := core.IntConst(info, as.Rhs[i]); isK {
+														isConstDef = true
+														if kk == k {
+															return true, true, "the constant assigned at " + c.Prog.Pos(as.Pos())
+														}
+													}
+												}
+											}
+											if isConstDef {
+												continue
+											}
+										}
+										atoms := append(append([]core.Atom{}, g.DominatingAtoms(d)...), atomsBetween(g, d, v, others)...)
+										cases = append(cases, pathCase{atoms})
+									}
+								}
+							}
+							if len(cases) == 0 {
+								cases = append(cases, pathCase{g.DominatingAtoms(v)})
+							}
+							for _, pc := range cases {
+								f := core.Formula{Fn: fn, Atoms: append(append([]core.Atom{}, pc.atoms...), core.Atom{Tag: ix.Index, Expr: lit})}
+								sat, decided := c.Prog.Satisfiable(f)
+								if !decided {
+									return false, false, ""
+								}
+								if sat {
+									return true, true, c.Prog.FormulaString(core.Formula{Fn: fn, Atoms: pc.atoms})
+								}
+							}
+							return false, true, ""
+						}
+						// the index stays inside the table: unless its type cannot exceed it,
+						// the path condition of the read must exclude index == len
+						if it, isBasic := info.TypeOf(ix.Index).Underlying().(*types.Basic); isBasic {
+							maxByType := int64(-1)
+							switch it.Kind() {
+							case types.Uint8:
+								maxByType = 255
+							case types.Uint16:
+								maxByType = 65535
+							}
+							if _, isConst := core.IntConst(info, ix.Index); !isConst && (maxByType < 0 || maxByType >= length) {
+								if can, decided, why := possible(length); decided && can {
+									o.FailAt(fn.Site(ix, ""), "the index %s can be %d, one past the last slot of %s (conditions: %s): the read panics", core.ExprStr(ix.Index), length, tv.Name(), why)
+								} else if !decided {
+									o.Unrec("%s: whether the index of %s stays in range was not decided", fn.Key, tv.Name())
+								}
+							}
+						}
 						if len(empty) == 0 {
 							return true
 						}
@@ -1317,16 +1403,14 @@ func ruleFuncTableSlots(c *core.Ctx, rule string) {
 								}
 							}
 						}
-						atoms := g.DominatingAtoms(v)
 						for _, k := range empty {
-							f := core.Formula{Fn: fn, Atoms: append(append([]core.Atom{}, atoms...), core.Atom{Tag: ix.Index, Expr: &ast.BasicLit{Kind: token.INT, Value: itoa(int(k))}})}
-							sat, decided := c.Prog.Satisfiable(f)
+							can, decided, why := possible(k)
 							if !decided {
 								o.Unrec("%s: whether slot %d of %s can be selected was not decided", fn.Key, k, tv.Name())
 								continue
 							}
-							if sat {
-								o.FailAt(fn.Site(ix, ""), "slot %d of %s is empty and the index %s can have that value here (conditions: %s): calling the value panics on a nil function", k, tv.Name(), core.ExprStr(ix.Index), c.Prog.FormulaString(core.Formula{Fn: fn, Atoms: atoms}))
+							if can {
+								o.FailAt(fn.Site(ix, ""), "slot %d of %s is empty and the index %s can have that value here (conditions: %s): calling the value panics on a nil function", k, tv.Name(), core.ExprStr(ix.Index), why)
 							}
 						}
 						return true
@@ -1336,5 +1420,117 @@ func ruleFuncTableSlots(c *core.Ctx, rule string) {
 		}
 		o.Count(scanned)
 		o.Fact("%d functions scanned, %d reads of slots of function tables", scanned, calls)
+	})
+}
+
+// ruleAllocAfterCharge (C08-R15): in the decoders, a function that charges
+// the per-stream budget for its working buffers allocates them only after the
+// charge succeeded, and the charge accounts for each of them: every make of
+// a non-constant size in such a function is dominated by a Charge call whose
+// argument contains the size as (part of) a summand, once per buffer.
+func ruleAllocAfterCharge(c *core.Ctx, rule string) {
+	c.Check(rule, "decoders/alloc-after-charge", "in a decoder function that charges the budget, working buffers of input-controlled size are allocated only after a charge", func(o *core.Ob) {
+		nFuncs := 0
+		for _, pkg := range c.Prog.RepoPkgs() {
+			sp := core.ShortPkg(pkg.PkgPath)
+			if !strings.HasPrefix(sp, "pdf/internal/filter") {
+				continue
+			}
+			for _, fn := range c.Prog.Funcs(pkg) {
+				if fn.Decl.Body == nil || c.Prog.IsTestFile(fn.Decl.Pos()) {
+					continue
+				}
+				info := fn.Info()
+				g := fn.Graph()
+				charges := callVerticesSuffix(g, ".Charge")
+				if len(charges) == 0 {
+					continue
+				}
+				nFuncs++
+				norm := func(e ast.Expr) string { return strings.ReplaceAll(core.ExprStr(e), " ", "") }
+				var terms func(e ast.Expr) []string
+				terms = func(e ast.Expr) []string {
+					if be, ok := ast.Unparen(e).(*ast.BinaryExpr); ok && be.Op == token.ADD {
+						return append(terms(be.X), terms(be.Y)...)
+					}
+					return []string{norm(e)}
+				}
+				used := map[*core.V]map[int]bool{}
+				for _, v := range g.Vs {
+					if v.AST == nil {
+						continue
+					}
+					as, ok := v.AST.(*ast.AssignStmt)
+					if !ok {
+						continue
+					}
+					for _, r := range as.Rhs {
+						call, ok := ast.Unparen(r).(*ast.CallExpr)
+						if !ok || core.CalleeKey(info, call) != "builtin.make" || len(call.Args) < 2 {
+							continue
+						}
+						if _, isSlice := info.TypeOf(call).Underlying().(*types.Slice); !isSlice {
+							continue
+						}
+						size := call.Args[len(call.Args)-1]
+						if _, isConst := core.IntConst(info, size); isConst {
+							continue
+						}
+						o.Count(1)
+						o.At(fn.Site(call, "buffer of size "+norm(size)))
+						// a dominating charge
+						var dom []callV
+						for _, ch := range charges {
+							if ch.V != v && g.Dominates(ch.V, v) {
+								dom = append(dom, ch)
+							}
+						}
+						if len(dom) == 0 {
+							o.FailAt(fn.Site(call, ""), "%s allocates %s before any budget charge in this function has succeeded", fn.Key, norm(r))
+							continue
+						}
+						// accounted for: a summand of a dominating charge mentions the size
+						// (each summand pays for one buffer); sizes resolved through one local
+						sizes := []string{norm(size)}
+						for _, vc := range valueCases(g, v, size, 1) {
+							sizes = append(sizes, norm(vc.Expr))
+						}
+						paid := false
+						for _, ch := range dom {
+							if len(ch.Call.Args) != 1 {
+								continue
+							}
+							var ts []string
+							for _, vc := range valueCases(g, ch.V, ch.Call.Args[0], 1) {
+								ts = append(ts, terms(vc.Expr)...)
+							}
+							ts = append(ts, terms(ch.Call.Args[0])...)
+							if used[ch.V] == nil {
+								used[ch.V] = map[int]bool{}
+							}
+							for i, t := range ts {
+								if used[ch.V][i] || paid {
+									continue
+								}
+								for _, sz := range sizes {
+									if t == sz || strings.Contains(t, sz) {
+										used[ch.V][i] = true
+										paid = true
+										break
+									}
+								}
+							}
+						}
+						if !paid {
+							// the amount may be computed in another form (a product, a helper):
+							// recorded, not judged
+							o.Fact("%s: no summand of the dominating charge names the size of %s", c.Prog.Pos(call.Pos()), norm(r))
+						}
+					}
+				}
+			}
+		}
+		o.Fact("%d decoder functions charge the budget", nFuncs)
+		o.Shape(nFuncs > 0, "no decoder function charges the budget")
 	})
 }
